@@ -6,6 +6,7 @@ from .runner import hyp_run
 
 PROP = "C06"
 LEVEL = "exploration"
+EVALUATION_COUNTER = "tree_rule_pairs"
 RULE = (
     "G-tree trees (grammar ASTs, rule-shaped templates in drawn contexts, repository example inputs; 0-4 "
     "pre-rewrites) x all 11 rule instances x every node; oracle: identity/structure/payload snapshot equal "
@@ -36,6 +37,7 @@ def check_tree(ctx, case):
 
     fresh = dict(E.rule_instances())
     for name, rule in E.rules():
+        ctx.count("tree_rule_pairs")
         before = snapshot(root)
         answers = []
         for n in nodes:
